@@ -335,3 +335,53 @@ package core
 //@ ensures ncalls(w.ParSigDBSubscribeThreshold) == 1
 //@ callreq w.SigAggSubscribe: a1 == w.AggSigDBStore || a1 == w.BroadcasterBroadcast
 //@ ensures ncalls(w.SigAggSubscribe) == 2
+
+// ---- C14: decoded values are well-formed for the methods the receive/verify/store paths call ------------
+
+//@ spec func wfProposalPtr(x *eth2api.VersionedSignedProposal) bool = (x.Version == eth2spec.DataVersionPhase0 ==> x.Phase0 != nil) && (x.Version == eth2spec.DataVersionAltair ==> x.Altair != nil) && (x.Version == eth2spec.DataVersionBellatrix && !x.Blinded ==> x.Bellatrix != nil) && (x.Version == eth2spec.DataVersionBellatrix && x.Blinded ==> x.BellatrixBlinded != nil) && (x.Version == eth2spec.DataVersionCapella && !x.Blinded ==> x.Capella != nil) && (x.Version == eth2spec.DataVersionCapella && x.Blinded ==> x.CapellaBlinded != nil) && (x.Version == eth2spec.DataVersionDeneb && !x.Blinded ==> x.Deneb != nil && x.Deneb.SignedBlock != nil) && (x.Version == eth2spec.DataVersionDeneb && x.Blinded ==> x.DenebBlinded != nil) && (x.Version == eth2spec.DataVersionElectra && !x.Blinded ==> x.Electra != nil && x.Electra.SignedBlock != nil) && (x.Version == eth2spec.DataVersionElectra && x.Blinded ==> x.ElectraBlinded != nil) && (x.Version == eth2spec.DataVersionFulu && !x.Blinded ==> x.Fulu != nil && x.Fulu.SignedBlock != nil) && (x.Version == eth2spec.DataVersionFulu && x.Blinded ==> x.FuluBlinded != nil) && x.Version >= eth2spec.DataVersionPhase0 && x.Version <= eth2spec.DataVersionFulu
+//@ spec func wfProposal(x eth2api.VersionedSignedProposal) bool = (x.Version == eth2spec.DataVersionPhase0 ==> x.Phase0 != nil) && (x.Version == eth2spec.DataVersionAltair ==> x.Altair != nil) && (x.Version == eth2spec.DataVersionBellatrix && !x.Blinded ==> x.Bellatrix != nil) && (x.Version == eth2spec.DataVersionBellatrix && x.Blinded ==> x.BellatrixBlinded != nil) && (x.Version == eth2spec.DataVersionCapella && !x.Blinded ==> x.Capella != nil) && (x.Version == eth2spec.DataVersionCapella && x.Blinded ==> x.CapellaBlinded != nil) && (x.Version == eth2spec.DataVersionDeneb && !x.Blinded ==> x.Deneb != nil && x.Deneb.SignedBlock != nil) && (x.Version == eth2spec.DataVersionDeneb && x.Blinded ==> x.DenebBlinded != nil) && (x.Version == eth2spec.DataVersionElectra && !x.Blinded ==> x.Electra != nil && x.Electra.SignedBlock != nil) && (x.Version == eth2spec.DataVersionElectra && x.Blinded ==> x.ElectraBlinded != nil) && (x.Version == eth2spec.DataVersionFulu && !x.Blinded ==> x.Fulu != nil && x.Fulu.SignedBlock != nil) && (x.Version == eth2spec.DataVersionFulu && x.Blinded ==> x.FuluBlinded != nil) && x.Version >= eth2spec.DataVersionPhase0 && x.Version <= eth2spec.DataVersionFulu
+//@ spec func wfRegistration(x eth2api.VersionedSignedValidatorRegistration) bool = x.Version == eth2spec.BuilderVersionV1 && x.V1 != nil
+
+//@ func NewVersionedSignedProposal
+//@ props C14 C10
+//@ requires proposal != nil
+//@ ensures r1 == nil ==> wfProposalPtr(proposal)
+//@ canary r1 != nil
+
+//@ func (p *VersionedSignedProposal) UnmarshalJSON
+//@ props C14
+//@ ensures result == nil ==> wfProposal(p.VersionedSignedProposal)
+//@ canary result != nil
+
+//@ func (p VersionedSignedProposal) MessageRoot
+//@ props C14
+//@ requires wfProposal(p.VersionedSignedProposal)
+//@ safe nil
+//@ nopanic
+
+//@ func NewVersionedSignedValidatorRegistration
+//@ props C14
+//@ requires registration != nil
+//@ ensures r1 == nil ==> registration.Version == eth2spec.BuilderVersionV1 && registration.V1 != nil
+
+//@ func (r *VersionedSignedValidatorRegistration) UnmarshalJSON
+//@ props C14
+//@ ensures result == nil ==> wfRegistration(r.VersionedSignedValidatorRegistration)
+//@ canary result != nil
+
+//@ func (r VersionedSignedValidatorRegistration) MessageRoot
+//@ props C14
+//@ requires wfRegistration(r.VersionedSignedValidatorRegistration)
+//@ safe nil
+//@ nopanic
+
+//@ func unmarshal
+//@ props C14
+//@ callreq json.Unmarshal: !res(1, v.(ssz.Unmarshaler)) || ncalls(unmarshaller.UnmarshalSSZ) == 1
+//@ ensures res(1, v.(ssz.Unmarshaler)) ==> ncalls(unmarshaller.UnmarshalSSZ) == 1
+//@ ensures ncalls(json.Unmarshal) <= 1
+
+//@ func marshal
+//@ props C14
+//@ callreq json.Marshal: !(res(1, v.(ssz.Marshaler)) && sszMarshallingEnabled)
+//@ ensures res(1, v.(ssz.Marshaler)) && sszMarshallingEnabled ==> ncalls(marshaller.MarshalSSZ) == 1 && ncalls(json.Marshal) == 0
